@@ -57,8 +57,12 @@ def _regions(R, n, picks):
         R.encode(f'{RG.SRC}:{node.lineno} {fn}', text)
     timeout_ms = 300000 if R.tier == 'quick' else 900000
     reported = 0
-    for nn, pk, label in ((n, None, f'N={n}, any subset'), (16, picks, f'N=16, sequence of {picks} picks')):
+    # the pick-sequence family (duplicates, any order) runs first; once it has produced findings the subset family only
+    # gets a short timeout (an encoder that is already refuted need not be proved on the duplicate-free inputs)
+    for nn, pk, label in ((16, picks, f'N=16, sequence of {picks} picks'), (n, None, f'N={n}, any subset')):
         P = RG.Problem(nn, pk)
+        if reported:
+            timeout_ms = 20000
         tw = z3.Solver()
         tw.add(*P.pre)
         tw.add(z3.Or(*P.want))
